@@ -28,13 +28,14 @@ ASSUMPTIONS = [
     'seeder replaced by a fixed seed (hook H1); x86-64 ASan/UBSan build; OpenSSL 3.0 libcrypto is a correct reference for the record layer decoder',
 ]
 EVAL = ['cases']
-DISTINCT = ['lru_config', 'resume_config']
+DISTINCT = ['lru_config', 'resume_config', 'openssl_resume']
 REQUIRED = ['exhaustive_histories', 'random_histories', 'cmp_exact', 'cmp_refine', 'cmp_safety', 'cmp_struct',
             'model_evictions', 'model_recency_refreshes', 'ops_resave_domain',
             'resume_cases', 'cmp_handshake_kind', 'cmp_wire_vs_validator', 'abbreviated_checked', 'full_checked',
             'cmp_master_secret', 'cmp_randoms', 'cmp_first_record', 'data_sessions', 'expected_failures',
             'large_histories', 'large_store_above_64k', 'large_model_evictions', 'large_load_hits',
-            'mismatch_sessions', 'store_entries_tampered', 'aborted_handshakes', 'cmp_aborted_lookup']
+            'mismatch_sessions', 'store_entries_tampered', 'aborted_handshakes', 'cmp_aborted_lookup',
+            'openssl_connections', 'openssl_resumed', 'openssl_full_second']
 EXHAUSTIVE = ('all operation sequences over {save, load, forget} x 6 IDs up to the stated depth for capacities 0..4 and store lengths '
               '100c+{0,1,99}, from empty and from full caches; all store lengths 0..99 to a smaller depth')
 NW = 16
@@ -53,4 +54,7 @@ def jobs(tier, seed):
           for i in range(NW)]
     js += [Job('res%d' % i, 'h_resume', ['--seed', seed, '--worker', i, '--nworkers', NW] + res,
                libs=['-lcrypto'], timeout=to) for i in range(NW)]
+    # the client against an independent server (OpenSSL) that issues session IDs of 1..32 bytes
+    js += [Job('ossl%d' % i, 'h_resume_o', ['--seed', seed, '--worker', i, '--nworkers', 4, '--cases', 288 if tier == 'quick' else 2880],
+               libs=['-lssl', '-lcrypto'], timeout=to) for i in range(4)]
     return js
